@@ -459,6 +459,7 @@ func (g *Gen) typeInv(t string, ty types.Type, st *State, depth int) string {
 		return app("<=", "0", t)
 	case *types.Slice:
 		f := sAnd(app("<=", "0", app("sl.off", t)), app("<=", "0", app("sl.len", t)), app("<=", app("sl.len", t), app("sl.cap", t)),
+			app("<=", app("+", app("sl.off", t), app("sl.cap", t)), "9223372036854775807"), // Go: len and cap fit in int
 			app("=>", app("=", app("sl.base", t), "0"), app("=", app("sl.cap", t), "0")))
 		if st != nil {
 			f = sAnd(f, app("<", app("sl.base", t), g.heapGet(st, g.allocHeap())), app("<=", "0", app("sl.base", t)))
